@@ -107,31 +107,15 @@ theorem c38_encoder (w : Nat) :
     (∀ x, (∀ j, j < w → x ≠ 2 ^ j) → encoder w x = (0, true)) :=
   ⟨encoder_onehot w, encoder_other w⟩
 
--- OBLIGATION c38_prio_encoder_partial : PriorityEncoder: if any bit is set, o = index of the lowest set bit and n = 0; for the zero input n = 1 and o = width mod 2^len(o) — this is 0 (as the docstring says) only when width is a power of two; hypothesis added for "o is 0": width = 2^k (finding F-b3-1 otherwise)
-theorem c38_prio_encoder_partial :
+-- OBLIGATION c38_prio_encoder : PriorityEncoder: if any bit is set, o = index of the lowest set bit and n = 0; for the zero input o = 0 and n = 1 — every width (after repair c60fe3d of finding F-b3-1)
+theorem c38_prio_encoder :
     (∀ (i : Nat) (rest : List Bool), prioEncoder (List.replicate i false ++ true :: rest) = (i, false)) ∧
-    (∀ n, prioEncoder (List.replicate n false) = (n % 2 ^ rangeWidth n, true)) ∧
-    (∀ k, prioEncoder (List.replicate (2 ^ k) false) = (0, true)) := by
-  refine ⟨prioEncoder_set, prioEncoder_zero, fun k => ?_⟩
-  rw [prioEncoder_zero]
-  congr 1
-  cases k with
-  | zero => simp [rangeWidth, bitsFor]
-  | succ k =>
-    have h1 : 2 ^ (k + 1) ≠ 0 := by have := Nat.two_pow_pos (k + 1); omega
-    have h2 : 2 ^ (k + 1) - 1 ≠ 0 := by
-      have := Nat.one_lt_two_pow (n := k + 1) (by omega); omega
-    have h3 : Nat.log2 (2 ^ (k + 1) - 1) = k := by
-      apply Nat.le_antisymm
-      · have : Nat.log2 (2 ^ (k + 1) - 1) < k + 1 :=
-          (Nat.log2_lt h2).2 (by have := Nat.two_pow_pos (k + 1); omega)
-        omega
-      · apply (Nat.le_log2 h2).2
-        rw [Nat.pow_succ]; have := Nat.two_pow_pos k; omega
-    simp only [rangeWidth, bitsFor, h1, h2, if_false, h3, Nat.mod_self]
+    (∀ n, prioEncoder (List.replicate n false) = (0, true)) :=
+  ⟨prioEncoder_set, prioEncoder_zero⟩
 
-/-- the full-strength docstring statement "otherwise o is 0" is false of the code: width 3, input 0 -/
-example : prioEncoder [false, false, false] = (3, true) := by decide
+/-- non-vacuity: the former counter-example (width 3, input 0) and an ordinary input -/
+example : prioEncoder [false, false, false] = (0, true) ∧ prioEncoder [false, false, true, true, false] = (2, false) := by
+  decide
 
 -- OBLIGATION c38_ctz : count_trailing_zeros (the recursion PriorityEncoder is built from) returns the index of the lowest set bit, and the width for the zero vector — every width
 theorem c38_ctz :
@@ -182,7 +166,7 @@ end TxV.Encoders
 #print axioms TxV.Encoders.c38_ring_empty
 #print axioms TxV.Encoders.c38_ssn
 #print axioms TxV.Coding.c38_encoder
-#print axioms TxV.Coding.c38_prio_encoder_partial
+#print axioms TxV.Coding.c38_prio_encoder
 #print axioms TxV.Coding.c38_ctz
 #print axioms TxV.Coding.c38_decoder
 #print axioms TxV.Coding.c38_gray_inverse
